@@ -10,6 +10,11 @@ DEDUCTIVE (the real functions are symbolically executed; network and database ar
    requested; all reads/fetches/writes happen while `_address_update_locks[address]` is held and the lock is released on every
    path (also when the server or the database fails); equal status -> nothing fetched, nothing saved; gap maintenance
    runs after the save.  `get_local_status_and_history` and `request_synced_transactions` are replaced by their contracts.
+ * `process_status_update.never-drops` - the real `Ledger.process_status_update`: for every state of the address lock (free / held
+   by a running update) exactly one `update_history(address, status)` task is handed to the task group: no notification is dropped.
+   `update_history.notification-during-update[n]` - the real `process_status_update` + `update_history` on a wallet WITH STATE:
+   a second notification for address A arrives while update_history(A) is in flight, after the server answered its get_history
+   and then accepted one more transaction touching A: after both tasks the stored history is the server's FINAL list.
  * `gap[g]` - the real `HierarchicalDeterministic.ensure_address_gap` / `_generate_keys` against the call-site contract of the
    address tables, ARBITRARY used_times: the last `gap` addresses are unused afterwards, indices are consecutive, nothing is
    generated when the gap is there, new addresses are announced (subscribed).
@@ -20,7 +25,9 @@ BOUNDED (labelled stand-ins, never counted as proved):
  * `sync.convergence[...]` - THE stand-in for the convergence clauses: the REAL Ledger + sqlite Database + Account against a
    fake wallet server over seeded random chains (blocks + mempool that fund, spend, claim, support and re-spend wallet addresses,
    third-party outputs of every template kind, growth in stages, notifications in random order, sequentially, concurrently,
-   through `process_status_update` and through gathered `update_history` calls, duplicated and stale).  Afterwards, against an
+   through `process_status_update` and through gathered `update_history` calls, duplicated and stale, and - in-flight growth - a
+   further payment to the address whose update is running, accepted right after the server answered that update and notified at
+   once, while the update holds the address lock; every status is notified once, nothing is re-sent).  Afterwards, against an
    oracle computed from the chain DEFINITION: stored history of every address == server history; balance, balance incl. claims,
    detailed balance, confirmed balance; `get_utxos()` ids; stored transaction heights; funds at the far end of the gap found;
    the last `gap` addresses of each chain unused, indices consecutive, every address subscribed.
@@ -258,7 +265,7 @@ def lists_of(n, shape, rs, ls):
 
 
 LOCAL_SHAPES_QUICK = [(), (0,), (1,), (3,), (0, 1), (1, 0), (0, 3), (3, 0), (1, 2)]
-LOCAL_SHAPES_QUICK_3 = [(), (0,), (3,), (0, 1), (1, 0), (0, 1, 2)]
+LOCAL_SHAPES_QUICK_3 = [(), (0,), (3,), (0, 1), (0, 1, 2)]
 LOCAL_SHAPES_ALL = [()] + [(a,) for a in range(4)] + [(a, b) for a in range(4) for b in range(4) if a != b] + \
     [(a, b, c) for a in range(4) for b in range(4) for c in range(4) if len({a, b, c}) == 3]
 
@@ -397,6 +404,300 @@ class UpdateHistoryFailure:
     def samples():
         for f in ('read_local', 'get_history', 'fetch', 'batch_stored', 'save_history', 'ensure_address_gap'):
             yield dict(address='bAddr', remote_status='aa', r0=5, r1=0, fail_at=f)
+
+
+# ---------------------------------------------------------------------- notifications are never dropped; one arriving during an update
+
+class NotifyTasks:
+    """what process_status_update needs of the TaskGroup: add(); records what it is handed"""
+
+    def __init__(self):
+        self.added = []
+
+    def add(self, coro):
+        self.added.append(coro)
+        return coro
+
+
+class NotifyLedger:
+    process_status_update = Ledger.process_status_update
+
+    def __init__(self, world):
+        self.world = world
+        self._update_tasks = NotifyTasks()
+        self._address_update_locks = LockTable(world)
+        self.calls = []
+
+    def update_history(self, address, remote_status, address_manager=None, reattempt_update=True):
+        self.calls.append((address, remote_status, address_manager))
+        return ('update-task', len(self.calls))
+
+
+async def notify_scenario(address, status, held):
+    world = World()
+    if held:
+        await world.lock.acquire()          # an update of this address is running
+    ledger = NotifyLedger(world)
+    r = ledger.process_status_update((address, status))
+    return r, ledger.calls, ledger._update_tasks.added, world.lock.locked()
+
+
+@proof("C09", "process_status_update.never-drops")
+class NeverDrops:
+    """Ledger.process_status_update for ANY (address, status) and EVERY state of the address lock (free, or held by a running update
+    of that address): exactly one update_history(address, status) is created and handed to the update task group - no notification
+    is dropped, merged or answered from the lock state - and the lock is left as it was"""
+    inputs = dict(address=TStr(), status=TOpt(TStr()), held=TBool())
+    note = "free / held x None / string status"
+
+    def run(address, status, held):
+        return notify_scenario(address, status, held)
+
+    def ensures_exactly_one_update_task_for_this_notification(address, status, held, result):
+        return result[1] == [(address, status, None)] and result[2] == [('update-task', 1)] and result[3] == held
+
+    def samples():
+        for held in (False, True):
+            for status in (None, 'aa' * 32):
+                yield dict(address='bAddr', status=status, held=held)
+
+
+def which_rendering(history, renderings):
+    """index of the first string in `renderings` equal to `history`, -1 if none"""
+    for i in range(len(renderings)):
+        if history == renderings[i]:
+            return i
+    return -1
+
+
+def _int_constants(t, out):
+    import z3
+    if z3.is_const(t):
+        if z3.is_int(t) and t.decl().kind() == z3.Z3_OP_UNINTERPRETED and not any(t.eq(o) for o in out):
+            out.append(t)
+        return
+    for c in t.children():
+        _int_constants(c, out)
+
+
+def _sign_known(st, x):
+    import z3
+    stack = list(st.pc)
+    while stack:
+        a = stack.pop()
+        if z3.is_and(a):
+            stack.extend(a.children())
+        elif a.eq(x >= 0):
+            return True
+        elif z3.is_not(a) and a.arg(0).eq(x >= 0):
+            return False
+    return None
+
+
+@model_for(which_rendering)
+def _m_which_rendering(interp, st, args, kwargs):
+    """symbolic side.  The engine writes the decimal rendering of an integer x as ite(x >= 0, str(x), '-' ++ str(-x)), and z3's
+    simplifier hoists these differently for f'{h}' and '%d' % h.  So: case split on the sign of every integer in the strings (both
+    cases are explored, the sign goes into the path condition), replace the conditions by their value, simplify - what is left are
+    concatenations of constants and str(x), which have ONE normal form - and compare SYNTACTICALLY.  A string that is not literally
+    one of the renderings counts as unknown (-1), which makes the scenario fail - never pass - so this is safe."""
+    import z3
+    h, cands = args[0], list(st.heap[args[1].addr].items)
+    ints = []
+    for v in [h] + cands:
+        if not v.concrete:
+            _int_constants(v.term(), ints)
+
+    def decide(s1):
+        subst = [(x >= 0, z3.BoolVal(_sign_known(s1, x))) for x in ints]
+
+        def norm(v):
+            return z3.simplify(z3.substitute(v.term(), *subst)) if subst else z3.simplify(v.term())
+        for i, c in enumerate(cands):
+            if h.concrete and c.concrete:
+                same = h.v == c.v
+            elif h.concrete or c.concrete:
+                same = False
+            else:
+                same = norm(h).eq(norm(c))
+            if same:
+                return VInt(i)
+        return VInt(-1)
+
+    def split(s1, k, leaves):
+        if k == len(ints):
+            leaves.append(s1)
+        elif _sign_known(s1, ints[k]) is not None:
+            split(s1, k + 1, leaves)
+        else:
+            for cond in (ints[k] >= 0, z3.Not(ints[k] >= 0)):
+                s2 = s1.copy()
+                if s2.assume(cond) and interp.feasible(s2):
+                    split(s2, k + 1, leaves)
+    leaves = []
+    split(st, 0, leaves)        # every copy is taken before any continuation runs
+    for s1 in leaves:
+        yield s1, decide(s1)
+
+
+class RaceTasks:
+    """a TaskGroup that really starts the coroutines (asyncio tasks) and remembers them"""
+
+    def __init__(self):
+        self.tasks = []
+
+    def add(self, coro):
+        task = asyncio.ensure_future(coro)
+        self.tasks.append(task)
+        return task
+
+
+class RaceNetwork:
+    def __init__(self, ledger):
+        self.ledger = ledger
+
+    async def retriable_call(self, function, *args, **kwargs):
+        return await function(*args, **kwargs)
+
+    async def get_history(self, address):
+        led = self.ledger
+        led.world.event('get_history', address)
+        reply = [{'tx_hash': t, 'height': h} for t, h in led.server]
+        if led.grow_to is not None:
+            # the reply is on its way; the server accepts another transaction touching the address and notifies at once:
+            # the notification reaches the wallet while this update is still running (it holds the address lock)
+            led.server, led.grow_to = led.grow_to, None
+            led.process_status_update((address, led.status_of_list(1)))
+        return reply
+
+
+class RaceDb:
+    def __init__(self, ledger):
+        self.ledger = ledger
+
+    async def set_address_history(self, address, history):
+        self.ledger.world.event('save_history', address, history)
+        self.ledger.stored_index = self.ledger.parse(history)
+
+
+class RaceLedger:
+    """a wallet with STATE around the real process_status_update and update_history: what set_address_history stores is what the next
+    get_local_status_and_history returns (parse = the known list whose rendering the string is; anything else is an error).
+    Statuses: the protocol says hex SHA-256 of the history string; the code only compares statuses, so each list the server ever
+    had gets its own constant (SHA-256 idealised as collision free), None for the empty list"""
+    update_history = Ledger.update_history
+    process_status_update = Ledger.process_status_update
+    maybe_has_channel_key = Ledger.maybe_has_channel_key
+
+    def __init__(self, world, first, final):
+        self.world = world
+        self.server, self.grow_to = first, final
+        self.known_lists = [first, final]
+        self.stored_index = -1          # -1: nothing stored yet
+        self._address_update_locks = LockTable(world)
+        self._known_addresses_out_of_sync = Flags(world)
+        self._update_tasks = RaceTasks()
+        self.network = RaceNetwork(self)
+        self.db = RaceDb(self)
+        self.accounts = []
+
+    def status_of_list(self, index):
+        if index < 0 or len(self.known_lists[index]) == 0:
+            return None
+        return 'status-of-list-%d' % index
+
+    def parse(self, history):
+        index = which_rendering(history, [server_history_string(known) for known in self.known_lists])
+        if index < 0:
+            raise AssertionError('the stored string is not the rendering of a list the server ever had')
+        return index
+
+    async def get_local_status_and_history(self, address, history=None):
+        if not history:
+            self.world.event('read_local', address)
+            return self.status_of_list(self.stored_index), (list(self.known_lists[self.stored_index]) if self.stored_index >= 0 else [])
+        index = self.parse(history)
+        return self.status_of_list(index), list(self.known_lists[index])
+
+    async def request_synced_transactions(self, to_request, remote_history, address):
+        self.world.event('fetch', address, list(to_request.values()), sorted(remote_history))
+        for txid, height in list(to_request.values()):
+            yield SyncTx(txid, height)
+        self.world.event('batch_stored', address)
+
+    async def get_address_manager_for_address(self, address):
+        return SyncManager(self.world, 'looked-up')
+
+
+async def race_scenario(address, first, final):
+    world = World()
+    ledger = RaceLedger(world, first, final)
+    # symbolic side only: settle the sign of every height NOW (see the model of which_rendering) - the engine cannot fork a path
+    # while a started-but-not-yet-run task is waiting in the ready queue (a coroutine object is not copied with the state)
+    which_rendering('', [server_history_string(first), server_history_string(final)])
+    ledger.process_status_update((address, ledger.status_of_list(0)))       # the notification that starts it all
+    failed, i = 0, 0
+    while i < len(ledger._update_tasks.tasks):
+        try:
+            await ledger._update_tasks.tasks[i]
+        except Exception as e:       # noqa
+            failed += 1
+            world.events.append(('task-failed', True, type(e).__name__, str(e)))
+        i += 1
+    stored = list(ledger.known_lists[ledger.stored_index]) if ledger.stored_index >= 0 else []
+    return world.events, len(ledger._update_tasks.tasks), failed, world.lock.locked(), stored, ledger.server
+
+
+def make_race_proof(n):
+    class Race:
+        inputs = dict(address=TStr(), r0=HEIGHT, r1=HEIGHT, r2=HEIGHT, confirmed=TBool(), c0=HEIGHT)
+        timeout = 6
+        note = "16 seeded height combinations incl. mempool heights, with and without the first entry getting confirmed"
+
+        def lists(r0, r1, r2, confirmed, c0):
+            first = [(TXIDS[i], (r0, r1, r2)[i]) for i in range(n)]
+            final = [(TXIDS[i], (c0 if confirmed and i == 0 else (r0, r1, r2)[i])) for i in range(n + 1)]
+            return first, final
+
+        def run(address, r0, r1, r2, confirmed, c0):
+            first, final = Race.lists(r0, r1, r2, confirmed, c0)
+            return race_scenario(address, first, final)
+
+        def ensures_both_notifications_become_updates_and_the_final_list_is_stored(address, r0, r1, r2, confirmed, c0, result):
+            first, final = Race.lists(r0, r1, r2, confirmed, c0)
+            events, tasks, failed, locked, stored, server = result
+            saves = events_of(events, 'save_history')
+            return (tasks == 2 and failed == 0 and locked == False and server == final and stored == final          # noqa
+                    and len(saves) >= 1 and saves[len(saves) - 1][2] == address
+                    and which_rendering(saves[len(saves) - 1][3], [server_history_string(final)]) == 0)
+
+        def ensures_the_second_update_starts_after_the_first_released_the_lock(result):
+            kinds = [e[0] for e in result[0] if e[0] in ('read_local', 'save_history')]
+            ok = kinds == ['read_local', 'save_history', 'read_local', 'save_history']
+            for e in result[0]:
+                ok = ok and e[1] == True        # noqa
+            return ok
+
+        def samples():
+            import random
+            r = random.Random(n)
+            for k in range(16):
+                yield dict(address='bAddr%d' % k, r0=r.choice([-1, 0, 5]), r1=r.choice([-1, 0, 5, 6]), r2=r.choice([-1, 0, 7]),
+                           confirmed=k % 2 == 0, c0=r.choice([5, 6, 9]))
+
+    Race.__doc__ = (
+        f"The real process_status_update + update_history on a wallet with state: the server lists {n} transaction(s) for address A and "
+        f"notifies; update_history(A) starts, reads the (empty) stored state and asks for the history; right after the server put its "
+        f"answer on the wire it accepts one more transaction touching A (optionally the first entry also changes its height: mempool -> "
+        f"confirmed) and notifies again - process_status_update runs while the first update holds the lock of A.  After every task has "
+        f"finished: two update tasks ran, none failed, the second one ran after the first released the lock, and the stored history is the "
+        f"server's FINAL list (symbolic heights, any address).  Schedule: the second task waits for the lock, i.e. runs when the first is "
+        f"done (the only schedule the lock admits; other interleavings of the waiting itself are not modelled).")
+    proof("C09", f"update_history.notification-during-update[{n}]")(Race)
+
+
+make_race_proof(1)
+make_race_proof(2)
 
 
 # ====================================================================== (b) the stored history string and its status (bounded)
@@ -1278,7 +1579,7 @@ async def run_sync(seed, gaps=(4, 3), stages=4, mode='mixed', third_party_script
             return {'merkle_root': server.merkle_roots[height], 'block_height': height}
 
     rnd = random.Random(seed * 7919 + 1)
-    d = tempfile.mkdtemp(prefix='c09_')
+    d = tempfile.mkdtemp(prefix='c09_', dir='/dev/shm' if os.path.isdir('/dev/shm') else None)     # a real sqlite file, on RAM disk if there is one
     server = FakeServer(rnd)
     ledger = Ledger({'db': Database(os.path.join(d, 'blockchain.db')), 'headers': ChainHeaders(':memory:'), 'network': server})
     ledger.headers.checkpoints = {}
@@ -1338,13 +1639,13 @@ async def run_sync(seed, gaps=(4, 3), stages=4, mode='mixed', third_party_script
                     return
             problems.append('update tasks never settle')
 
-        budget = [in_flight]
+        budget, last_stage = [in_flight], [False]
 
         def grow_while_update_in_flight(address):
             """the server accepts a payment to `address` (often re-spent at once) right after it answered a request of the update
             of that address, and notifies at once: the notification arrives while that update still holds the address lock"""
             owner = owner_of.get(address)
-            if owner is None or budget[0] <= 0 or rnd.random() < 0.4:
+            if owner is None or budget[0] <= 0 or rnd.random() < (0.0 if last_stage[0] else 0.6):
                 return
             budget[0] -= 1
             amount, no = rnd.randint(10 ** 5, 10 ** 8), len(txs)
@@ -1372,6 +1673,8 @@ async def run_sync(seed, gaps=(4, 3), stages=4, mode='mixed', third_party_script
                 await ledger.subscribe_account(account)     # the real entry point: subscribe, first statuses, gap discovery
                 await settle()
                 continue
+            if s + 1 == len(plan):      # in the last stage nothing later can repair a lost notification: every request grows the chain
+                budget[0], last_stage[0] = in_flight, True
             notes = server.pending_notifications()
             rnd.shuffle(notes)
             m = mode if mode != 'mixed' else rnd.choice(['sequential', 'concurrent', 'gather', 'deferred'])
@@ -1460,10 +1763,10 @@ async def run_sync(seed, gaps=(4, 3), stages=4, mode='mixed', third_party_script
 
 class _Convergence:
     bounded_only = True
-    inputs = dict(seed=TInt(0, 10 ** 9), recv_gap=TInt(1, 100), change_gap=TInt(1, 100), stages=TInt(1, 20), mode=TStr())
+    inputs = dict(seed=TInt(0, 10 ** 9), recv_gap=TInt(1, 100), change_gap=TInt(1, 100), stages=TInt(1, 20), mode=TStr(), in_flight=TInt(0, 20))
 
-    def run(seed, recv_gap, change_gap, stages, mode):
-        return asyncio.run(run_sync(seed, (recv_gap, change_gap), stages, mode))
+    def run(seed, recv_gap, change_gap, stages, mode, in_flight):
+        return asyncio.run(run_sync(seed, (recv_gap, change_gap), stages, mode, None, None, in_flight))
 
     def ensures_wallet_equals_the_oracle(result):
         return result == []
@@ -1475,45 +1778,65 @@ CONVERGENCE_DOC = (
     "third-party outputs of every template kind, address re-use, payments at the far end of the gap), grown in stages (blocks and mempool; "
     "mempool transactions get confirmed later, heights -1 -> 0 -> n); first sync through subscribe_account, then the status "
     "notifications of every stage in random order: one by one, all at once through process_status_update (two of them twice), as gathered "
-    "update_history calls, or withheld and delivered stale after the next stage.  Oracle from the chain definition: stored history of "
-    "every address == server history; balance / balance incl. claims / detailed balance (claims and supports apart) / confirmed balance; "
-    "get_utxos() ids; stored heights; addresses consecutive, the last `gap` of each chain unused, enough of them for the furthest payment, "
-    "all subscribed; no update task raised. ")
+    "update_history calls, or withheld and delivered stale after the next stage; with in_flight > 0 the server also accepts a payment to "
+    "an address (usually re-spent at once) right AFTER answering get_history / get_transaction_batch of the running update of that very "
+    "address and notifies immediately, i.e. while that update holds the address lock (in the last stage on every request, so that "
+    "nothing later can repair a lost notification).  Every status is notified ONCE.  Oracle from the chain definition (final server "
+    "state): stored history of every address == server history; balance / balance incl. claims / detailed balance (claims and supports "
+    "apart) / confirmed balance; get_utxos() ids; stored heights; addresses consecutive, the last `gap` of each chain unused, enough of "
+    "them for the furthest payment, all subscribed; no update task raised. ")
 
 
-@proof("C09", "sync.convergence[gaps 4/3]")
-class Convergence(_Convergence):
-    __doc__ = CONVERGENCE_DOC + "Receiving gap 4, change gap 3, 4 stages."
-    note = "about 50 seeds within the quick budget / 700 seeds (thorough): chains of 4..16 transactions, 20..50 addresses, mixed delivery modes"
-
-    def samples():
-        for seed in range(700):
-            yield dict(seed=seed, recv_gap=4, change_gap=3, stages=4, mode='mixed')
+def _cases_gaps43(n):
+    for seed in range(n):
+        yield dict(seed=seed, recv_gap=4, change_gap=3, stages=4, mode='mixed', in_flight=3 if seed % 3 == 0 else 0)
 
 
-@proof("C09", "sync.convergence[modes]")
-class ConvergenceModes(_Convergence):
-    __doc__ = CONVERGENCE_DOC + "Each delivery mode on its own, gaps 2/1 .. 6/4, 3..6 stages."
-    note = "about 50 cases within the quick budget / 520 (thorough): 4 delivery modes x gaps (2,1) (3,2) (5,2) (6,4) x 3..6 stages, own seeds"
-
-    def samples():
-        k = 0
-        for rep in range(40):
-            for gaps in ((2, 1), (3, 2), (5, 2), (6, 4)):
-                for mode in ('sequential', 'concurrent', 'gather', 'deferred'):
-                    k += 1
-                    if (k + rep) % 4 == 0 or rep >= 10:
-                        yield dict(seed=1000 + k, recv_gap=gaps[0], change_gap=gaps[1], stages=3 + k % 4, mode=mode)
+def _cases_modes(reps):
+    k = 0
+    for rep in range(reps):
+        for gaps in ((2, 1), (3, 2), (5, 2), (6, 4)):
+            for mode in ('sequential', 'concurrent', 'gather', 'deferred'):
+                k += 1
+                if (k + rep) % 2 == 0 or rep >= 4:
+                    yield dict(seed=1000 + k, recv_gap=gaps[0], change_gap=gaps[1], stages=3 + k % 4, mode=mode, in_flight=2 * (k % 2))
 
 
-@proof("C09", "sync.convergence[default gaps 20/6]")
-class ConvergenceDefaultGaps(_Convergence):
-    __doc__ = CONVERGENCE_DOC + "The default gaps of an account: receiving 20, change 6."
-    note = "as many of 150 seeds as fit the budget (quick: about 15), 4 stages, mixed delivery"
+def _cases_default_gaps(n):
+    for seed in range(n):
+        yield dict(seed=5000 + seed, recv_gap=20, change_gap=6, stages=4, mode='mixed', in_flight=2 if seed % 4 == 0 else 0)
 
-    def samples():
-        for seed in range(150):
-            yield dict(seed=5000 + seed, recv_gap=20, change_gap=6, stages=4, mode='mixed')
+
+def _cases_in_flight(n):
+    for seed in range(n):
+        gaps = ((4, 3), (3, 2), (2, 1))[seed % 3]
+        yield dict(seed=7000 + seed, recv_gap=gaps[0], change_gap=gaps[1], stages=3 + seed % 2,
+                   mode=('mixed', 'concurrent', 'sequential', 'gather')[seed % 4], in_flight=2 + seed % 3)
+
+
+def _convergence_proof(name, doc, note, cases, thorough=False):
+    body = dict(__doc__=CONVERGENCE_DOC + doc, note=note, samples=staticmethod(cases), thorough_only=thorough)
+    proof("C09", name)(type('Convergence', (_Convergence,), body))
+
+
+_convergence_proof("sync.convergence[gaps 4/3]", "Receiving gap 4, change gap 3, 4 stages, mixed delivery; every third seed with in-flight growth.",
+                   "48 seeds: chains of 4..16 transactions, 20..50 addresses", lambda: _cases_gaps43(48))
+_convergence_proof("sync.convergence[modes]", "Each delivery mode on its own, gaps 2/1 .. 6/4, 3..6 stages; every second case with in-flight growth.",
+                   "48 cases: 4 delivery modes x gaps (2,1) (3,2) (5,2) (6,4), own seeds", lambda: _cases_modes(5))
+_convergence_proof("sync.convergence[default gaps 20/6]", "The default gaps of an account: receiving 20, change 6.",
+                   "12 seeds, 4 stages, mixed delivery", lambda: _cases_default_gaps(12))
+_convergence_proof("sync.convergence[in-flight growth]",
+                   "Every case with in-flight growth: 2..4 payments (mostly re-spent at once) to the address whose update is running, notified "
+                   "while that update holds the lock; gaps 4/3, 3/2, 2/1; all delivery modes.",
+                   "48 seeds", lambda: _cases_in_flight(48))
+_convergence_proof("sync.convergence.more[gaps 4/3]", "Thorough tier: more seeds of sync.convergence[gaps 4/3].", "700 seeds (300 s budget)",
+                   lambda: _cases_gaps43(700), True)
+_convergence_proof("sync.convergence.more[modes]", "Thorough tier: more cases of sync.convergence[modes].", "528 cases (300 s budget)",
+                   lambda: _cases_modes(35), True)
+_convergence_proof("sync.convergence.more[default gaps 20/6]", "Thorough tier: more seeds with the default gaps.", "150 seeds (300 s budget)",
+                   lambda: _cases_default_gaps(150), True)
+_convergence_proof("sync.convergence.more[in-flight growth]", "Thorough tier: more seeds of sync.convergence[in-flight growth].",
+                   "600 seeds (300 s budget)", lambda: _cases_in_flight(600), True)
 
 
 class _Hostile:
@@ -1593,8 +1916,9 @@ NOT_DECIDED = [
     "the convergence clauses themselves (history of every address, balance, UTXO set, gap discovery, independence from order and "
     "interleaving) are NOT proved: only the bounded stand-ins sync.convergence[...] on seeded chains of <= ~25 transactions",
     "update_history deductively: server lists of more than 3 transactions, stored histories of more than 3 entries, more than one batch "
-    "(> 100 transactions per address: outside the statement), two updates of one address interleaved (only 'everything under the lock' "
-    "is proved; real interleavings are bounded)",
+    "(> 100 transactions per address: outside the statement); two updates of one address: proved for the schedule the lock admits (the "
+    "second runs when the first has released the lock: update_history.notification-during-update) plus 'everything under the lock'; the "
+    "waiting itself (asyncio.Lock fairness, a task blocked inside acquire) is not modelled - engine gap C09_5 - real interleavings are bounded",
     "a server that re-orders or withdraws entries while every (txid, height) it lists is already stored: update_history returns without "
     "saving (warning only) - outside the statement (the server never retracts)",
     "get_local_status_and_history and _sync deductively (engine gaps C09_1, C09_4: bounded stand-ins), request_transactions / "
@@ -1606,7 +1930,10 @@ NOT_DECIDED = [
 ASSUMPTIONS = [
     "update_history proofs: transaction ids are fixed distinct 64-hex strings (the code uses ids only for equality, as dictionary keys and "
     "in string formatting); the server lists a transaction once; fetched transactions arrive in request order or reversed",
-    "the server is honest and consistent: histories only grow, a mempool transaction keeps its place until it is confirmed",
+    "the server is honest and consistent: histories only grow, a mempool transaction keeps its place until it is confirmed; it notifies "
+    "every status change once (the bounded runs never re-send a notification)",
+    "update_history.notification-during-update: statuses are constants per server list (SHA-256 idealised as collision free; the code only "
+    "compares statuses); the stored string is mapped back to a list by syntactic equality with the renderings of the server's lists",
     "known findings F10 / F10b: the deductive and bounded main proofs exclude exactly the scripts that match no template and the claim "
     "names that are not UTF-8; the *.known-* proofs keep the witnesses alive",
 ]
